@@ -6,6 +6,7 @@ mod d3;
 mod d4;
 mod d5;
 mod d7;
+mod d8;
 mod d5gen;
 mod nor;
 mod util;
@@ -76,6 +77,9 @@ fn main() {
         Some("d5m") => { let mut ex = d5::Exec::new(); run("d5m", &d5gen::gen_malformed, &mut |l, o| ex.line(l, o)) }
         Some("d5w") => { let mut ex = d5::Exec::new(); run("d5w", &d5gen::gen_crash_sweep, &mut |l, o| ex.line(l, o)) }
         Some("d6") => { let mut ex = d5::Exec::new(); run("d6", &d5gen::gen_ring, &mut |l, o| ex.line(l, o)) }
+        Some("d8s") => { let mut ex = d8::Exec::new(); run("d8s", &d8::gen_sessions, &mut |l, o| ex.line(l, o)) }
+        Some("d8c") => { let mut ex = d8::Exec::new(); run("d8c", &d8::gen_crash, &mut |l, o| ex.line(l, o)) }
+        Some("d8r") => { let mut ex = d8::Exec::new(); run("d8r", &d8::gen_ring, &mut |l, o| ex.line(l, o)) }
         Some("d1f") => {
             let mut ex = d1::Exec::new();
             run("d1f", &d1::gen_faults, &mut |l, o| ex.line(l, o))
